@@ -106,11 +106,17 @@ WRend == /\ Is("rend") /\ Step
          /\ UNCHANGED <<vars, calls, chk, devs, taint, rdl, rdls, dead, unsure, enqAt, ovt, mvAt, ph, dv, out, nact, cw, running, started, rs, ex>>
 
 (* the loop is idle after run() returned *)
+(* known finding (Redis): a message that the worker's consumer had marked in-flight but never handed to the runner  *)
+(* when the stop arrived (the background fetch is cancelled between the take and the local queue, or the hand-over     *)
+(* is dropped with the cancelled consume()) stays in `processing' until its execution timeout + maintenance            *)
+StuckUndelivered(i) == Dev("redis_stop_leaves_in_flight") /\ loc[i].p = 1 /\ holder[i] # NoC /\ ~deliv[i]
 WQuiet == /\ Is("quiet") /\ Step
           /\ Has("stop") =>
                \A i \in Ids :
-                  /\ ph[i] # "idle" => loc[i].p = 0 /\ ~transit[i]           \* nothing stays in flight
-                  /\ (dead = {} /\ ph[i] \in {"got", "run", "ended", "killed"}) =>   \* taken but never disposed:
+                  /\ (ph[i] # "idle" /\ ~StuckUndelivered(i)) => (loc[i].p = 0 /\ ~transit[i])    \* nothing stays in flight
+                  \* ... nor with one of the worker's consumers, even if the worker never got to see it
+                  /\ (loc[i].p > 0 /\ holder[i] # NoC /\ holder[i] \notin dead /\ ~StuckUndelivered(i)) => cw[holder[i]] = 0
+                  /\ (dead = {} /\ ph[i] \in {"got", "run", "ended", "killed"} /\ ~StuckUndelivered(i)) =>   \* taken but never disposed:
                         (st[i] = "live" /\ loc[i].n + loc[i].d = 1)          \*   back in its queue
           /\ Has("dispo") =>
                \A i \in Ids : (ph[i] = "ended" /\ ~wc.forced /\ dead = {}) => FALSE   \* an outcome was never reported
